@@ -72,6 +72,7 @@ def path(J, ctx, length):
 
 def run_job(job):
     J = Job(job)
+    J.vacuity_check = False   # satisfiability queries over FloatingPoint are slow; every path was found feasible when forked
     # integers as 32-bit vectors here (never wrapping: every term's interval is checked), so that the query stays
     # inside the FP/BV theories; mixing int(<double>) with mathematical integers is hopeless for the solver
     saved = V.INT_BITS
